@@ -12,6 +12,7 @@ import (
 	"os/exec"
 	"path/filepath"
 	"runtime"
+	"runtime/debug"
 	"sort"
 	"strings"
 	"sync"
@@ -19,19 +20,19 @@ import (
 )
 
 type Run struct {
-	ID        string
-	Tier      string
-	Seed      int64
-	Evidence  string
-	Known     string
-	Replays   string
-	ReplayIn  string
-	Worker    bool
-	Start     time.Time
-	Deadline  time.Time // internal deadline: stop cleanly, exhaustive:false
-	NProc     int
-	Verbose   bool
-	known     []knownEntry
+	ID       string
+	Tier     string
+	Seed     int64
+	Evidence string
+	Known    string
+	Replays  string
+	ReplayIn string
+	Worker   bool
+	Start    time.Time
+	Deadline time.Time // internal deadline: stop cleanly, exhaustive:false
+	NProc    int
+	Verbose  bool
+	known    []knownEntry
 }
 
 type knownEntry struct {
@@ -41,8 +42,8 @@ type knownEntry struct {
 }
 
 type knownFile struct {
-	Findings []knownEntry    `json:"findings"`
-	Fixed    []any           `json:"fixed"`
+	Findings []knownEntry `json:"findings"`
+	Fixed    []any        `json:"fixed"`
 }
 
 // Violation is one property violation with a replayable artefact.
@@ -54,6 +55,9 @@ type Violation struct {
 }
 
 func Init(id string) *Run {
+	// a runaway recursion in the code under test must end in a quick fatal error of this process (which the
+	// drivers turn into a violation), not in a gigabyte of stack per worker
+	debug.SetMaxStack(64 << 20)
 	r := &Run{ID: id, Start: time.Now()}
 	var budget time.Duration
 	flag.StringVar(&r.Tier, "tier", "quick", "quick|thorough")
@@ -240,6 +244,18 @@ func ServeWorker(handle func(task json.RawMessage) any) {
 // Pool is a set of worker subprocesses.
 type Pool struct {
 	procs []*proc
+	// Tolerant: a worker that dies on a task (fatal error of the Go runtime: stack overflow, concurrent map
+	// access, out of memory) is replaced and the task's result is DiedResult; otherwise a dead worker is an engine error
+	Tolerant bool
+	extra    []string
+}
+
+// DiedResult is the result of a task whose worker process died while working on it (Pool.Tolerant).
+const DiedResult = `{"died":true}`
+
+// Died tells whether a raw result is DiedResult.
+func Died(raw json.RawMessage) bool {
+	return strings.HasPrefix(strings.TrimSpace(string(raw)), `{"died":true`)
 }
 
 type proc struct {
@@ -250,25 +266,41 @@ type proc struct {
 }
 
 // NewPool starts n workers running this binary with -worker plus extra args.
+// NewTolerantPool is NewPool with Tolerant set from the start.
+func NewTolerantPool(n int, extra ...string) *Pool {
+	p := &Pool{extra: extra, Tolerant: true}
+	for i := 0; i < n; i++ {
+		p.procs = append(p.procs, p.spawn())
+	}
+	return p
+}
+
 func NewPool(n int, extra ...string) *Pool {
-	p := &Pool{}
+	p := &Pool{extra: extra}
+	for i := 0; i < n; i++ {
+		p.procs = append(p.procs, p.spawn())
+	}
+	return p
+}
+
+func (p *Pool) spawn() *proc {
 	exe, err := os.Executable()
 	if err != nil {
 		EngineError("%v", err)
 	}
-	for i := 0; i < n; i++ {
-		args := append([]string{"-worker"}, extra...)
-		cmd := exec.Command(exe, args...)
-		cmd.Stderr = os.Stderr
-		cmd.Env = append(os.Environ(), "GOMAXPROCS=2", "GOGC=200")
-		w, _ := cmd.StdinPipe()
-		ro, _ := cmd.StdoutPipe()
-		if err := cmd.Start(); err != nil {
-			EngineError("start worker: %v", err)
-		}
-		p.procs = append(p.procs, &proc{cmd: cmd, in: bufio.NewWriterSize(w, 1<<20), out: bufio.NewReaderSize(ro, 1<<20), w: w})
+	args := append([]string{"-worker"}, p.extra...)
+	cmd := exec.Command(exe, args...)
+	cmd.Stderr = os.Stderr
+	if p.Tolerant {
+		cmd.Stderr = nil // the crash dump of a worker that is expected to die is not part of the report
 	}
-	return p
+	cmd.Env = append(os.Environ(), "GOMAXPROCS=2", "GOGC=200")
+	w, _ := cmd.StdinPipe()
+	ro, _ := cmd.StdoutPipe()
+	if err := cmd.Start(); err != nil {
+		EngineError("start worker: %v", err)
+	}
+	return &proc{cmd: cmd, in: bufio.NewWriterSize(w, 1<<20), out: bufio.NewReaderSize(ro, 1<<20), w: w}
 }
 
 // Map sends every task to some worker and returns the results in task order.
@@ -301,7 +333,11 @@ func (p *Pool) Map(tasks []any, onResult func(i int, res json.RawMessage)) []jso
 				if err != nil {
 					_ = pr.cmd.Wait()
 					code := pr.cmd.ProcessState.ExitCode()
-					EngineError("worker died (exit %d) on task %d: %s", code, i, string(b))
+					if !p.Tolerant {
+						EngineError("worker died (exit %d) on task %d: %s", code, i, string(b))
+					}
+					*pr = *p.spawn()
+					line = []byte(DiedResult)
 				}
 				mu.Lock()
 				results[i] = json.RawMessage(line)
@@ -357,7 +393,7 @@ func ReadFile(path string) string {
 
 // A harness that runs both a graph search and a schedule exploration tells its workers which
 // protocol to speak through the VERIF_WORKER_MODE environment variable.
-func WorkerMode() string { return os.Getenv("VERIF_WORKER_MODE") }
+func WorkerMode() string     { return os.Getenv("VERIF_WORKER_MODE") }
 func SetWorkerMode(m string) { os.Setenv("VERIF_WORKER_MODE", m) }
 
 // WriteJSON writes v to path (engine error on failure).
